@@ -38,6 +38,7 @@ type MemSock struct {
 	once     sync.Once
 	failSend bool
 	failNext string
+	Linger   time.Duration // see pump
 	pumpDone chan struct{}
 }
 
@@ -85,6 +86,7 @@ func (s *MemSock) pump() {
 				return false
 			}
 		}
+		var lingerEnd time.Time
 	offer:
 		for {
 			for i := 0; i < 200; i++ {
@@ -101,8 +103,22 @@ func (s *MemSock) pump() {
 			case <-s.ready:
 			case <-tick:
 			case <-s.closed:
-				return
+				// A real receiver that is blocked on its hand-off when the socket is closed may still hand that one frame
+				// over (its select takes either ready arm). With Linger the hand-off in progress stays on offer that long.
+				if s.Linger <= 0 {
+					return
+				}
+				if lingerEnd.IsZero() {
+					lingerEnd = time.Now().Add(s.Linger)
+				}
+				if time.Now().After(lingerEnd) {
+					return
+				}
+				time.Sleep(200 * time.Microsecond)
 			}
+		}
+		if !lingerEnd.IsZero() {
+			return // the socket is closed: nothing after the frame that was in flight
 		}
 	}
 }
